@@ -279,7 +279,7 @@ def _call_hostile(args):
     return run_hostile(*args)
 
 
-def hostile_sample(fn, chunks):
+def hostile_sample(fn, chunks, thorough=False):
     """the last job of every job kind (kind = leading string of a tuple job, else the function), at most HOSTILE_MAX_JOBS"""
     def kind(c):
         if isinstance(c, dict):
@@ -292,10 +292,14 @@ def hostile_sample(fn, chunks):
                 return ("td", c[0]["kind"])
         return ("f", fn.__name__)
 
-    last = {}
+    last, first = {}, {}
     for c in chunks:
+        first.setdefault(kind(c), c)
         last[kind(c)] = c
-    return list(last.values())[:HOSTILE_MAX_JOBS]
+    out = list(last.values())
+    if thorough:      # the thorough tier also takes the first job of every kind, and three times as many jobs
+        out += [c for k, c in first.items() if c is not last[k]]
+    return out[: HOSTILE_MAX_JOBS * (3 if thorough else 1)]
 
 
 class Ctx(Part):
@@ -330,7 +334,7 @@ class Ctx(Part):
         """
         chunks = list(chunks)
         nproc = min(nproc or NPROC, max(1, len(chunks)))
-        sample = [] if (os.environ.get("VERIF_ENVMODE") == "hostile" or os.environ.get("VERIF_NO_HOSTILE")) else hostile_sample(fn, chunks)
+        sample = [] if (os.environ.get("VERIF_ENVMODE") == "hostile" or os.environ.get("VERIF_NO_HOSTILE")) else hostile_sample(fn, chunks, self.thorough)
         if nproc == 1 or os.environ.get("VERIF_SERIAL"):
             for c in chunks:
                 p = Part()
